@@ -5,8 +5,8 @@
 
    The fragment (what ./check C01 generates as "core programs" and compares with the REAL compiler's
    inferred type and the REAL VM's value on every run):
-     literals (integers, binaries), tuple construction (named / unnamed, positional fields),
-     variables, positional field access `e .i`, integer addition and binary length (the two
+     literals (integers, binaries), tuple construction (named / unnamed, labelled / unlabelled
+     fields), variables, field access by position `e .i` and by label `e .l`, integer addition and binary length (the two
      builtins `__integer_add__`, `__binary_length__`),
      bindings  `x = e1, e2`          (a bare binder: binds any value, nil too)
                `e1 =(T)x, e2`        (type-ascribed binder: binds and narrows to T, or the whole
@@ -20,7 +20,7 @@
                parameter type, compiler.rs apply_value_to_type; the body is typed at the
                declared parameter type — functions here do not dispatch on their parameter, so
                no per-call-site case table applies).
-   Not in the fragment: labels, partial types, generics, recursive types, closures, tail calls,
+   Not in the fragment: partial types, generics, recursive types, closures, tail calls,
    processes, strings, spreads, literal / pin / or-patterns, nested sub-patterns. *)
 From Quiver Require Import Base.
 From Coq Require Import Arith.
@@ -28,26 +28,40 @@ Close Scope Z_scope.
 Open Scope nat_scope.
 
 (* ---------------------------------------------------------------- types and values *)
+(* the shape of a tuple: its name and the label of each field (types.rs TupleTypeInfo without the
+   field types; an unlabelled field has label None) *)
+Definition shape := (option nat * list (option nat))%type.
+
 Inductive cty :=
 | TyInt
 | TyBin
-| TyTup (name : option nat) (fields : list cty)
+| TyTup (name : shape) (fields : list cty)
 | TyUnion (variants : list cty).
 
 Inductive cval :=
 | CInt (z : Z)
 | CBin (len : nat)
-| CTup (name : option nat) (fields : list cval).
+| CTup (name : shape) (fields : list cval).
 
-Definition ty_nil : cty := TyTup None [].
-Definition v_nil : cval := CTup None [].
+Definition ty_nil : cty := TyTup (None, []) [].
+Definition v_nil : cval := CTup (None, []) [].
 
-Definition oname_eqb (a b : option nat) : bool :=
+Definition olab_eqb (a b : option nat) : bool :=
   match a, b with
   | None, None => true
   | Some x, Some y => Nat.eqb x y
   | _, _ => false
   end.
+
+Fixpoint olabs_eqb (l1 l2 : list (option nat)) : bool :=
+  match l1, l2 with
+  | [], [] => true
+  | a :: l1', b :: l2' => olab_eqb a b && olabs_eqb l1' l2'
+  | _, _ => false
+  end.
+
+(* equality of shapes: same name, same labels *)
+Definition oname_eqb (a b : shape) : bool := olab_eqb (fst a) (fst b) && olabs_eqb (snd a) (snd b).
 
 (* pointwise test of two lists of equal length (structural on the first) *)
 Definition all2b {A B} (f : A -> B -> bool) : list A -> list B -> bool :=
@@ -139,7 +153,7 @@ Fixpoint disj (s t : cty) {struct s} : bool :=
 (* ---------------------------------------------------------------- patterns *)
 Inductive pat :=
 | PTy (t : cty)                                 (* `='T`   : type test *)
-| PTup (name : option nat) (bs : list (option nat)).  (* `Name[x, _, ..]` : binders / wildcards *)
+| PTup (name : shape) (bs : list (option nat)).  (* `Name[x, _, ..]` : binders / wildcards *)
 
 Definition env := list (nat * cval).
 Definition tenv := list (nat * cty).
@@ -219,15 +233,24 @@ Definition pat_binds (p : pat) (ms : list cty) (G : tenv) : tenv :=
 Inductive exp :=
 | EInt (z : Z)
 | EBinLit (len : nat)
-| ETup (name : option nat) (es : list exp)
+| ETup (name : shape) (es : list exp)
 | EVar (x : nat)
 | EGet (e : exp) (i : nat)
+| EGetL (e : exp) (l : nat)                 (* `e .label` *)
 | EAdd (e1 e2 : exp)
 | ELen (e : exp)
 | ELet (x : nat) (e1 e2 : exp)
 | ELetAs (x : nat) (t : cty) (e1 e2 : exp)
 | ECase (x : nat) (brs : list (pat * exp)) (d : exp)
 | ECall (f : nat) (e : exp).
+
+(* position of a label among a tuple's labels (type_queries.rs get_field_from_source) *)
+Fixpoint label_index (l : nat) (ls : list (option nat)) : option nat :=
+  match ls with
+  | [] => None
+  | Some l' :: ls' => if Nat.eqb l l' then Some 0 else option_map S (label_index l ls')
+  | None :: ls' => option_map S (label_index l ls')
+  end.
 
 (* a top-level monomorphic function: declared parameter type, body (the parameter is variable 0) *)
 Definition fdef := (cty * exp)%type.
@@ -298,6 +321,12 @@ Section Core.
           | Some (TyTup _ ts) => nth_error ts i
           | _ => None
           end
+      | EGetL e1 l =>
+          match infer k' G e1 with
+          | Some (TyTup sh ts) =>
+              match label_index l (snd sh) with Some i => nth_error ts i | None => None end
+          | _ => None
+          end
       | EAdd e1 e2 =>
           match infer k' G e1, infer k' G e2 with
           | Some TyInt, Some TyInt => Some TyInt
@@ -354,6 +383,12 @@ Section Core.
           match eval n' rho e1 with
           | Some (CTup _ vs) => nth_error vs i
           | _ => None                               (* a VM-level type failure: stuck *)
+          end
+      | EGetL e1 l =>
+          match eval n' rho e1 with
+          | Some (CTup sh vs) =>
+              match label_index l (snd sh) with Some i => nth_error vs i | None => None end
+          | _ => None
           end
       | EAdd e1 e2 =>
           match eval n' rho e1, eval n' rho e2 with
